@@ -331,6 +331,70 @@ theorem prime_position_injective (p : ℕ) [hp : Fact p.Prime] (idx idx' : Fin p
   exact h0
 
 
+/-! ### nine bundles: three relations `e_k + e_{k+3} + e_{k+6} = 0` -/
+
+theorem zeta9_indep : LinearIndependent ℚ fun i : Fin 6 => zetaP 9 ^ (i : ℕ) := by
+  have h := linearIndependent_pow (K := ℚ) (zetaP 9)
+  have hdeg : (minpoly ℚ (zetaP 9)).natDegree = 6 := by
+    rw [← cyclotomic_eq_minpoly_rat (zetaP_prim 9 (by norm_num)) (by norm_num), natDegree_cyclotomic]
+    decide
+  rw [hdeg] at h
+  exact h
+
+/-- `ζ₉³` is a primitive cube root of unity: `1 + ζ³ + ζ⁶ = 0` -/
+theorem zeta9_cube : 1 + zetaP 9 ^ 3 + zetaP 9 ^ 6 = 0 := by
+  have h3 : IsPrimitiveRoot (zetaP 9 ^ 3) 3 := (zetaP_prim 9 (by norm_num)).pow (by norm_num) (by norm_num)
+  have := h3.geom_sum_eq_zero (by norm_num : 1 < 3)
+  simp only [Finset.sum_range_succ, Finset.sum_range_zero, pow_zero, pow_one, zero_add] at this
+  rw [← pow_mul] at this
+  exact this
+
+/-- the integer relations among the nine star vectors are generated by `e_k + e_{k+3} + e_{k+6} = 0`, `k = 0, 1, 2` -/
+theorem star9_relations (r : Fin 9 → ℤ) (h : ∑ b : Fin 9, (r b : ℂ) * zetaP 9 ^ (b : ℕ) = 0) :
+    (r 0 = r 6 ∧ r 3 = r 6) ∧ (r 1 = r 7 ∧ r 4 = r 7) ∧ (r 2 = r 8 ∧ r 5 = r 8) := by
+  set ζ := zetaP 9 with hζ
+  have h6 : ζ ^ 6 = -(1 + ζ ^ 3) := by linear_combination zeta9_cube
+  have h7 : ζ ^ 7 = -(ζ + ζ ^ 4) := by
+    have : ζ ^ 7 = ζ ^ 6 * ζ := by ring
+    rw [this, h6]; ring
+  have h8 : ζ ^ 8 = -(ζ ^ 2 + ζ ^ 5) := by
+    have : ζ ^ 8 = ζ ^ 6 * ζ ^ 2 := by ring
+    rw [this, h6]; ring
+  have hsum : ∑ b : Fin 9, (r b : ℂ) * ζ ^ (b : ℕ)
+      = (r 0 : ℂ) + (r 1 : ℂ) * ζ + (r 2 : ℂ) * ζ ^ 2 + (r 3 : ℂ) * ζ ^ 3 + (r 4 : ℂ) * ζ ^ 4 + (r 5 : ℂ) * ζ ^ 5
+        + (r 6 : ℂ) * ζ ^ 6 + (r 7 : ℂ) * ζ ^ 7 + (r 8 : ℂ) * ζ ^ 8 := by
+    simp [Fin.sum_univ_succ]
+    ring
+  rw [hsum, h6, h7, h8] at h
+  have hlin := Fintype.linearIndependent_iff.mp zeta9_indep
+    (fun i : Fin 6 => (([r 0 - r 6, r 1 - r 7, r 2 - r 8, r 3 - r 6, r 4 - r 7, r 5 - r 8].getD (i : ℕ) 0 : ℤ) : ℚ)) (by
+    simp only [Algebra.smul_def, eq_ratCast]
+    simp [Fin.sum_univ_succ]
+    linear_combination h)
+  have g : ∀ i : Fin 6, [r 0 - r 6, r 1 - r 7, r 2 - r 8, r 3 - r 6, r 4 - r 7, r 5 - r 8].getD (i : ℕ) 0 = 0 := by
+    intro i
+    have := hlin i
+    exact_mod_cast this
+  have g0 := g 0; have g1 := g 1; have g2 := g 2; have g3 := g 3; have g4 := g 4; have g5 := g 5
+  simp at g0 g1 g2 g3 g4 g5
+  omega
+
+/-- **C17 (nine bundles, no two vertices coincide — exact part)**: two index vectors are mapped to the same point only if,
+    within each of the three classes `{k, k+3, k+6}`, their difference is constant -/
+theorem nine_position_injective (idx idx' : Fin 9 → ℤ) (h : position (starP 9) idx = position (starP 9) idx') :
+    (idx 0 - idx' 0 = idx 6 - idx' 6 ∧ idx 3 - idx' 3 = idx 6 - idx' 6) ∧
+    (idx 1 - idx' 1 = idx 7 - idx' 7 ∧ idx 4 - idx' 4 = idx 7 - idx' 7) ∧
+    (idx 2 - idx' 2 = idx 8 - idx' 8 ∧ idx 5 - idx' 5 = idx 8 - idx' 8) := by
+  apply star9_relations (fun b => idx b - idx' b)
+  have h0 : position (starP 9) idx - position (starP 9) idx' = 0 := sub_eq_zero.mpr h
+  unfold position starP at h0
+  rw [← Finset.sum_sub_distrib] at h0
+  have : ∀ b : Fin 9, idx b • zetaP 9 ^ (b : ℕ) - idx' b • zetaP 9 ^ (b : ℕ) = ((idx b - idx' b : ℤ) : ℂ) * zetaP 9 ^ (b : ℕ) := by
+    intro b; simp only [zsmul_eq_mul]; push_cast; ring
+  simp_rw [this] at h0
+  exact h0
+
+
 end Cyclotomic
 
 end C17
